@@ -71,11 +71,25 @@ Theorem C13_ista_run_monotone : forall (F : OrdField) (n : nat) (A : list (list 
 Proof. exact ista_run_monotone. Qed.
 Print Assumptions C13_ista_run_monotone.
 
-(* the step-size premise is decidable: exact LDL^T of I - alpha A^T A *)
+(* the step-size premise is decided exactly: symmetric elimination (LDL^T) of I - alpha A^T A *)
 Theorem C13_psd_sound : forall (F : OrdField) (n : nat) (M : list (list F)), psd F n M = true ->
   forall d, length d = n -> rle F 0 (quad F M d).
 Proof. exact psd_sound. Qed.
 Print Assumptions C13_psd_sound.
+Theorem C13_premise_of_psd : forall (F : OrdField) (n : nat) (alpha : F) (A : list (list F)),
+  wfM F n A -> psd F n (stepmat F n alpha A) = true ->
+  forall d, length d = n -> rle F (alpha * nrm2 F (mv F A d)) (nrm2 F d).
+Proof. exact premise_of_psd. Qed.
+Print Assumptions C13_premise_of_psd.
+(* non-vacuity of ista_descent / ista_run_monotone: a concrete 3x2 problem over Qc with lambda_max(A^T A) ~ 6.85,
+   alpha = 1/8, whose premise is established by the certificate (this is what the check evaluates per problem) *)
+Example C13_ista_descent_ex :
+  let A : list (list QcO) := [[Q2Qc 1; Q2Qc 2]; [Q2Qc 0; Q2Qc 1]; [Q2Qc (-1); Q2Qc 0]] in
+  let alpha : QcO := Q2Qc (1#8) in
+  wfM QcO 2 A /\ rlt QcO 0 alpha /\ (forall d, length d = 2%nat -> rle QcO (alpha * nrm2 QcO (mv QcO A d)) (nrm2 QcO d)).
+Proof. intros A alpha. assert (W : wfM QcO 2 A) by (repeat constructor). split; [exact W|]. split.
+  - split; [vm_compute; discriminate | intro E; discriminate E].
+  - apply premise_of_psd; [exact W | vm_compute; reflexivity]. Qed.
 
 (* ---- fixed points of the ISTA step are exactly the KKT points *)
 Theorem C13_ista_fixed_point_kkt : forall (F : OrdField) (n : nat) (A : list (list F)) (y : list F),
@@ -107,3 +121,16 @@ Theorem C13_kkt_same_objective : forall (F : OrdField) (n : nat) (A : list (list
   obj F A y eps x = obj F A y eps x'.
 Proof. exact kkt_same_objective. Qed.
 Print Assumptions C13_kkt_same_objective.
+
+(* non-vacuity of the KKT theorems: A = I_2, y = (3, 1/2), eps = 2: x = (2, 0) is a KKT point
+   (g = (1, 1/2): g_1 = eps/2 on the non-zero entry, |g_2| <= eps/2 on the zero entry) and a fixed point of the step *)
+Example C13_kkt_ex :
+  let A : list (list QcO) := [[Q2Qc 1; Q2Qc 0]; [Q2Qc 0; Q2Qc 1]] in
+  let y : list QcO := [Q2Qc 3; Q2Qc (1#2)] in let x : list QcO := [Q2Qc 2; Q2Qc 0] in
+  kkt QcO 2 A y (Q2Qc 2) x /\ step QcO 2 A y (Q2Qc (1#2)) (Q2Qc 2) x = x /\ wfM QcO 2 A /\ rlt QcO 0 (Q2Qc (1#2) : QcO).
+Proof. intros A y x. assert (W : wfM QcO 2 A) by (repeat constructor).
+  assert (P : rlt QcO 0 (Q2Qc (1#2) : QcO)) by (split; [vm_compute; discriminate | intro E; discriminate E]).
+  assert (S : step QcO 2 A y (Q2Qc (1#2)) (Q2Qc 2) x = x).
+  { unfold x. vm_compute. repeat f_equal; apply Qc_is_canon; reflexivity. }
+  split; [|split; [exact S|split; assumption]].
+  apply (ista_fixed_point_kkt QcO 2 A y W (Q2Qc (1#2)) (Q2Qc 2) x); auto. vm_compute; discriminate. Qed.
